@@ -630,14 +630,16 @@ def run(ctx):
         nonlocal _t0
         timing[name] = round(_time.time() - _t0, 1)
         _t0 = _time.time()
+    # T5: the current source of modifies_known_mutable, is_internal_attribute and both
+    # is_safe_attribute methods, interpreted in Coq, equals the model functions for every argument.
+    # coqc compiles the regenerated files in worker threads while the proof re-check and the streams run;
+    # every obligation is compiled on every run and joined (and judged) at the end of run()
+    finish_equations = sbx_src_tie.start_source_equations(ctx, ("mkm", "imm", "immcall"))
+    # regenerated compiler facts: routing table and "assignment targets are namespace-guarded" (both set forms)
+    finish_routes = sbx_src_tie.start_routing_table(ctx)
+    lap("translate_source")
     ctx.proof("C19")
     lap("proof")
-    # T5: the current source of modifies_known_mutable, is_internal_attribute and both
-    # is_safe_attribute methods, interpreted in Coq, equals the model functions for every argument
-    sbx_src_tie.source_equations(ctx, ("mkm", "imm", "immcall"))
-    # regenerated compiler facts: routing table and "assignment targets are namespace-guarded" (both set forms)
-    sbx_src_tie.routing_table(ctx)
-    lap("source_equations")
     facts, flagged = regenerate(ctx)
     lap("regenerated_tables")
     from jinja2 import sandbox as sb
@@ -790,6 +792,9 @@ def run(ctx):
     lap("filter_stream")
     ctx.extra["filters_exercised"] = len({n for n, _ in exprs})
     ctx.extra["filter_expressions"] = len(exprs)
+    finish_equations()
+    finish_routes()
+    lap("wait_for_source_equations_and_routes")
 
 
 def replay(ctx, data):
